@@ -388,6 +388,98 @@ def shape_streams(rng):
     return out
 
 
+# ----------------------------------------------------------------------------------------------
+# ill-formed sequences, systematically: every state of one stream's table entry x every frame kind
+# from either direction, bounded-exhaustive (seeded C15-14 - response DATA before response HEADERS,
+# then RST_STREAM - was missed because only GOAWAY / Close ever followed that state)
+# ----------------------------------------------------------------------------------------------
+ST_SID = 3          # the stream under test; GOAWAY last-stream-ids 1 / 3 / 5 are below / at / above it
+ST_NAME = "Suite/st/x"
+
+
+def st_req_fields(name):
+    f = [(":method", "POST"), (":scheme", "http"), (":authority", "h"), (":path", "/svc.S/T"), ("content-type", GRPC)]
+    return f + ([("x-test-case-name", name)] if name is not None else [])
+
+
+ST_RESP_FIELDS = [(":status", "200"), ("content-type", GRPC)]
+# one whole message and a second one cut inside its prefix: whoever flushes this direction's dataTracer has
+# something unfinished to report (and needs a builder for it)
+ST_PART = envelope(0, b"ab") + envelope(1, b"cde")[:3]
+
+
+def st_states():
+    """-> [(label, frames)]: the states of c.streams[3] (none / request open / half-closed / response DATA before
+    response HEADERS / response open / closed), named and nameless, each reached by the shortest frame list"""
+    def rq(es, name=ST_NAME):
+        return (REQ, H, ST_SID, es, st_req_fields(name), 0, -1, 0)
+
+    def rh(es):
+        return (RESP, H, ST_SID, es, ST_RESP_FIELDS, 0, -1, 0)
+    qd = (REQ, D, ST_SID, 0, ST_PART, -1)
+    pd = (RESP, D, ST_SID, 0, ST_PART, -1)
+    return [
+        ("none", []),
+        ("req-open", [rq(0)]),
+        ("req-open/mid-message", [rq(0), qd]),
+        ("half-closed", [rq(0), (REQ, D, ST_SID, 1, envelope(0, b"ab"), -1)]),
+        ("resp-data-before-headers/req-open", [rq(0), qd, pd]),
+        ("resp-data-before-headers/half-closed", [rq(1), pd]),
+        ("resp-open/req-open", [rq(0), rh(0), pd]),
+        ("resp-open/half-closed", [rq(1), rh(0)]),
+        ("closed", [rq(1), rh(1)]),
+        ("unnamed/resp-data-before-headers", [rq(0, None), pd]),
+        ("unnamed/resp-open", [rq(0, None), qd, rh(0), pd]),
+    ]
+
+
+def st_alphabet(full):
+    """the frames tried in every state, from either direction.  full: also CONTINUATION (a block continued, and a
+    stray one: the direction goes broken), WINDOW_UPDATE, PING, an unknown frame type, GOAWAY at the stream's id and
+    from the client, REFUSED_STREAM, the retry timer; reduced: what handleFrame does not ignore."""
+    out = []
+    for d in (REQ, RESP):
+        fields = st_req_fields(ST_NAME) if d == REQ else ST_RESP_FIELDS
+        out += [("H", (d, H, ST_SID, 0, fields, 0, -1, 0)),
+                ("H+es", (d, H, ST_SID, 1, fields, 0, -1, 0)),
+                ("D", (d, D, ST_SID, 0, ST_PART, -1)),
+                ("D+es", (d, D, ST_SID, 1, b"", -1)),
+                ("RST", (d, RST, ST_SID, 8 if d == REQ else 2))]
+        if full:
+            out += [("H+CONT", (d, H, ST_SID, 0, fields, 1, -1, 0)),
+                    ("CONT-stray", (d, RAW, 9, 4, ST_SID, b"\x82")),
+                    ("GOAWAY-below", (d, GOAWAY, 1, 0, b"")), ("GOAWAY-at", (d, GOAWAY, ST_SID, 2, b"")),
+                    ("GOAWAY-above", (d, GOAWAY, 5, 0, b"")),
+                    ("WINDOW_UPDATE", (d, WUPD, ST_SID, 7)), ("PING", (d, PING, 0, b"12345678")),
+                    ("unknown-type", (d, RAW, 0x4A, 1, ST_SID, b"xyz"))]
+            if d == RESP:
+                out.append(("RST-refused", (d, RST, ST_SID, 7)))
+        elif d == RESP:
+            out += [("GOAWAY-below", (d, GOAWAY, 1, 0, b"")), ("GOAWAY-above", (d, GOAWAY, 5, 0, b""))]
+    out.append(("Close", (REQ, CLOSE, 0)))
+    if full:
+        out.append(("timer", (REQ, TIMESUP, ST_NAME)))
+    return [("%s/%s" % ("-" if f[1] in (CLOSE, TIMESUP) else ("req" if f[0] == REQ else "resp"), lab), f) for lab, f in out]
+
+
+def st_sequences(quick):
+    """-> (state label, frames, sides): the state's prefix followed by every sequence of 1 and 2 frames of the full
+    alphabet (both sides) and every sequence of 3 frames of the reduced one (sides alternating; thorough: both)"""
+    full, red = st_alphabet(True), st_alphabet(False)
+    k = 0
+    for label, prefix in st_states():
+        for n in (1, 2):
+            for seq in itertools.product(full, repeat=n):
+                yield label, [s[0] for s in seq], prefix + [s[1] for s in seq], [0, 1]
+        if label in ("none", "closed"):
+            # no table entry: only request HEADERS do anything, and then the state is one of the others (covered
+            # with its own sequences of 2)
+            continue
+        for seq in itertools.product(red, repeat=3):
+            k += 1
+            yield label, [s[0] for s in seq], prefix + [s[1] for s in seq], [k % 2] if quick else [0, 1]
+
+
 def resid(frames, sid):
     """the same stream on another id"""
     return [f[:2] + (sid,) + f[3:] for f in frames]
@@ -480,7 +572,11 @@ class C15(Prop):
     rule = ("c15.conn: generated multi-stream HTTP/2 exchanges (1-4 streams; gRPC / gRPC-web / Connect streaming / unary; HEADERS split "
             "into 0-2 CONTINUATIONs, padding, priority; DATA cut at arbitrary points; request trailers; RST_STREAM from either side; "
             "refused-and-retried; unnamed streams; GOAWAY (also at every position of three open streams); every production of the grammar of well-formed streams (RST by either peer after every prefix, trailers-only, zero DATA, CONTINUATION chains, late frames); Reads delivering bytes together with a timeout / EOF / error at every position; PING/SETTINGS/WINDOW_UPDATE/PRIORITY/PUSH_PROMISE/unknown-type noise; one "
-            "structurally malformed frame or a bad preface) synthesised by x/net/http2's Framer + hpack.Encoder (dynamic table shared per "
+            "structurally malformed frame or a bad preface; ILL-FORMED ORDERS bounded-exhaustively: every state of a stream's table entry (none / "
+            "request open / half-closed / response DATA before response HEADERS / response open / closed; named and nameless) followed by every "
+            "sequence of <= 2 frames from either direction out of HEADERS(+END_STREAM, +CONTINUATION), stray CONTINUATION, DATA(+END_STREAM), "
+            "RST_STREAM, GOAWAY below/at/above the stream, WINDOW_UPDATE, PING, unknown type, Close, retry timer - client and server conn - and "
+            "every sequence of 3 frames handleFrame acts on) synthesised by x/net/http2's Framer + hpack.Encoder (dynamic table shared per "
             "direction), x random interleavings (all interleavings of two short streams in the exhaustive part) x chunkings (one op per "
             "frame, random cuts, byte-by-byte, maximal), played through the real TracingHTTP2Conn over a scripted net.Conn on client and "
             "server side, with scripted Read/Write/Close errors, short writes and retry-timer expiry; compared: per op the count, error and "
@@ -500,7 +596,9 @@ class C15(Prop):
                    "including one malformation per frame type)")
     level_text = ("Machine-checked proof (Coq, 25 theorems). L1: every Read/Write/Close returns exactly the inner conn's bytes, count and "
                   "error from ANY tracer state; for any op list, bytes and HPACK behaviour the run exists (never_crashes: no nil "
-                  "dereference reachable, stream-table invariant); every chunk the inner Reads deliver - with or without an error - and "
+                  "dereference reachable - the model carries `builder == nil` of the response dataTracer explicitly (d_hasb; dt_flush = None when "
+                  "an event would need the missing builder) and close_stream / abandon_resp mirror the code's guards branch by branch -, "
+                  "stream-table invariant); every chunk the inner Reads deliver - with or without an error - and "
                   "everything handed to Write goes through the frame tracers, a Read with bytes and an error traces first and handles the "
                   "error afterwards (all_bytes_traced, read_error_after_tracing). L2: for ALL byte streams, ALL partitions into chunks and "
                   "ANY decoder, chunk by chunk = one call on the concatenation (state and frames; preface, 9-byte header, payload, header "
@@ -530,7 +628,8 @@ class C15(Prop):
                   "patterns are proved. spec_frames still uses parse_buf (the transcription of Framer.ReadFrame) for a single unit. "
                   "Trusted: Coq kernel, extraction, OCaml driver, harness, generator. HPACK decoding is an oracle (function of the "
                   "direction's header-block history); Framer.ReadFrame's structural checks are transcribed from x/net v0.37.0 and compared "
-                  "on every run; compression of end-stream messages is outside the modelled fragment (identity only); strconv.Atoi signs "
+                  "on every run; dataTracer's uint32 subtraction `expecting - uint32(actual)` is modelled with its wrap-around (dt_need: reached "
+                  "only when response DATA precedes the response HEADERS); compression of end-stream messages is outside the modelled fragment (identity only); strconv.Atoi signs "
                   "in :status not modelled; time.AfterFunc is the explicit TimesUp action; lock-region atomicity assumed.")
     technique = "Coq: chunking independence by a trace-append lemma, stream independence by simulation over arbitrary frame lists, trace content by a grammar of well-formed streams + simulation; differential run"
 
@@ -693,6 +792,19 @@ class C15(Prop):
                             for e in (2, 1, 3):
                                 shapes["read-bytes-with-%s" % {1: "eof", 2: "timeout", 3: "error"}[e]] += 1
                                 yield self._case("c15.conn", side, reqb, respb, reqt, respt, base[:i] + [[0, op[1], e]] + base[i + 1:])
+        # (2e) ill-formed sequences, bounded-exhaustive: every state of a stream's table entry (none / request open /
+        # half-closed / response DATA before response HEADERS / response open / closed; named and nameless) followed
+        # by every sequence of <= 2 frames of either direction out of HEADERS(+END_STREAM, +CONTINUATION), a stray
+        # CONTINUATION, DATA(+END_STREAM), RST_STREAM, GOAWAY below/at/above the stream, WINDOW_UPDATE, PING, an
+        # unknown type, Close, the retry timer - on the client and on the server side - and by every sequence of 3
+        # frames out of the ones handleFrame acts on; one op per frame
+        seqs = list(st_sequences(quick))
+        for (label, labs, frames, sides), (reqb, respb, reqt, respt, lens) in zip(seqs, self._synth([(PREFACE, s[2]) for s in seqs])):
+            shapes["state-seq/%s" % label] += len(sides)
+            shapes["state-seq-len-%d" % len(labs)] += len(sides)
+            for side in sides:
+                yield self._case("c15.conn", side, reqb, respb, reqt, respt,
+                                 build_ops(grng, side, len(PREFACE), frames, lens, "frame", []))
         # (3) every split of a short exchange into two reads / two writes
         pre, frames = gen_exchange(random.Random(7), 2, noise=False)
         (reqb, respb, reqt, respt, lens), = self._synth([(pre, frames)])
